@@ -92,6 +92,7 @@ type inst struct {
 	ticker  *cns.VerifTicker
 	bs      *store.BlockStore
 	pending *cns.VerifTimeout
+	lastTi  *cns.VerifTimeout
 	pv      *recPV
 	dead    bool
 	inbox   []int // indices into net not yet delivered
@@ -166,13 +167,19 @@ func hrsLess(a, b cns.VerifTimeout) bool {
 	return a.Step < b.Step
 }
 
+// collectTimeouts applies the real timeoutTicker's rule: a newly scheduled timeout replaces the current one unless it
+// is for an older height/round, or for the same round and a step not later than the last accepted one
 func (w *world) collectTimeouts(in *inst) {
 	for _, t := range in.ticker.Take() {
 		t := t
-		// the real ticker keeps only the newest timeout that is not older than what it has
-		if in.pending == nil || !hrsLess(t, *in.pending) {
-			in.pending = &t
+		if in.lastTi != nil {
+			l := in.lastTi
+			if t.Height < l.Height || (t.Height == l.Height && (t.Round < l.Round || (t.Round == l.Round && l.Step > 0 && t.Step <= l.Step))) {
+				continue
+			}
 		}
+		in.lastTi = &t
+		in.pending = &t
 	}
 }
 
